@@ -6,9 +6,10 @@ CONSTANTS
   Seat <- Seat3
   MaxRounds = 1
   MaxReqs = 1
-  MaxDeliver = 1
-  MaxBad = 1
-  MaxStops = 1
+  MaxDkgDeliver = 2
+  MaxRelayDeliver = 1
+  MaxBad = 0
+  MaxStops = 0
   MaxViewMis = 1
   Prompt = TRUE
   Agreement = TRUE
